@@ -209,6 +209,94 @@ def r01_3(chk, facts, tier):
                 chk.fail('R01.3', site, fa['file'], line, '%s: the two JSON encoders write different value text: only basic_json_encoder: [%s]; only basic_compact_json_encoder: [%s]' % (
                     name, '; '.join(show(k) for k in da[:3]), '; '.join(show(k) for k in db[:3])), {'only_pretty': [show(k) for k in da], 'only_compact': [show(k) for k in db]}, fa['q'])
 
+def r01_8(chk, facts, tier):
+    """Column accounting of the pretty printer: the column advances by what was appended."""
+    from .. import linear as L
+    chk.rule('R01.8', 'column accounting: every `column_ += E` of the pretty printer adds, besides constants, only the length of a text that was '
+                      'appended to the sink under the same conditions (x.size()/x.length() of an appended x) or the length a writer call returned; '
+                      'two paths that write the same text advance the column equally, so line breaks do not depend on how the value was built', floor=25)
+    fns = [f for f in facts.functions if f['file'].endswith('json_encoder.hpp') and f.get('body') is not None and not f.get('dep') and
+           A.strip_targs(f.get('cls') or '').endswith('basic_json_encoder') and '<char,' in (f.get('cls') or '')]
+    chk.require(fns, 'basic_json_encoder<char> not instantiated')
+    n = 0; seen = set()
+    for fn in fns:
+        if (fn['file'], fn['l']) in seen: continue
+        seen.add((fn['file'], fn['l']))
+        ups = []
+        g = None
+        for x in A.walk_no_lambda(fn['body']):
+            if x.get('k') == 'CompoundAssignOperator' and x.get('op') == '+=' and U.is_member_ref(x.get('lhs'), 'column_'): ups.append(x)
+        if not ups: continue
+        chk.analysed(fn)
+        g = C.CFG(fn['body'])
+        # appended texts per node, writer-return locals
+        appended = []   # (node, text of the appended object)
+        for nd in g.rpo:
+            if nd.kind not in ('stmt', 'cond') or not isinstance(nd.ast, dict): continue
+            for c in A.calls_in(nd.ast):
+                if A.callee_name(c) == 'append' and A.ref_name(c.get('obj')) == 'sink_':
+                    for a in c.get('args') or []:
+                        for y in A.calls_in(a):
+                            if A.callee_name(y) in ('data', 'size', 'length') and y.get('obj') is not None:
+                                appended.append((nd, A.text(A.strip(y['obj'], casts=True))))
+        writer_locals = set()
+        for x in A.walk_no_lambda(fn['body']):
+            if x.get('k') == 'VarDecl' and x.get('init') is not None:
+                if any(any(A.ref_name(a) == 'sink_' for a in c.get('args') or []) for c in A.calls_in(x['init'])): writer_locals.add(x.get('n'))
+                elif any(A.ref_name(c.get('obj')) in ('fp_',) or A.callee_name(c) == 'operator()' for c in A.calls_in(x['init'])) and 'sink_' in A.text(x['init']): writer_locals.add(x.get('n'))
+        for i, x in enumerate(ups):
+            n += 1
+            nd = g.node_of(x)
+            site = U.site(fn, 'column_ update #%d' % (i + 1))
+            bad = None
+            for y in A.walk(x.get('rhs')):
+                k = y.get('k')
+                if k in A.CALLS:
+                    nm = A.callee_name(y)
+                    if nm in ('size', 'length') and y.get('obj') is not None:
+                        t = A.text(A.strip(y['obj'], casts=True))
+                        if not any(t == t2 and (an is nd or (nd is not None and g.dominates(an, nd))) for an, t2 in appended):
+                            bad = 'adds %s.%s() but no `sink_.append(%s.data(), …)` precedes it on this path' % (t, nm, t)
+                    elif nm in ('null_literal', 'true_literal', 'false_literal', 'nan_to_num', 'inf_to_num', 'neginf_to_num', 'operator+', 'operator()'): pass
+                    elif y.get('k') == 'CXXOperatorCallExpr': pass
+                    else: bad = 'adds the result of %s(), which is not the length of anything appended' % nm
+                elif k == 'DeclRefExpr' and y.get('dk') in ('Var', 'ParmVar'):
+                    if y.get('n') not in writer_locals and y.get('n') not in ('sv', 'length') and not any(y.get('n') in t2 for an, t2 in appended):
+                        bad = 'adds `%s`, which is not a length returned by a writer' % y.get('n')
+                    if y.get('n') == 'length' and 'length' not in writer_locals: bad = 'adds `length`, which is not returned by a writer call on the sink'
+                if bad: break
+            if bad is None: chk.ok('R01.8', site, {'line': x.get('l'), 'adds': A.text(x.get('rhs'))[:50]} if i == 0 else None)
+            else: chk.fail('R01.8', site, fn['file'], x.get('l'), '%s: `column_ += %s` %s: the column no longer tracks the text written' % (fn['n'], A.text(x.get('rhs'))[:60], bad), None, fn['q'])
+    chk.require(n >= 25, 'R01.8: only %d column updates found in basic_json_encoder' % n)
+
+def r01_7(chk, facts):
+    """Tag-dispatch delegation: an overload that falls back to its sibling forwards its own parameters."""
+    chk.rule('R01.7', 'number writers: when an overload of dtoa_general / dtoa_fixed / dtoa_scientific falls back to the sibling overload of the same '
+                      'name, each forwarded argument is the caller\'s own parameter in that position (the value, not a local derived from it)', floor=3)
+    n = 0; seen = set()
+    for fn in facts.functions:
+        if not fn['file'].endswith('utility/write_number.hpp') or fn.get('body') is None or fn.get('dep') or (fn['file'], fn['l']) in seen: continue
+        seen.add((fn['file'], fn['l']))
+        k = 0
+        for c in A.calls_in(fn['body'], no_lambda=True):
+            if A.callee_name(c) != fn['n'] or c.get('k') != 'CallExpr': continue
+            cal = facts.callee(fn, c)
+            if cal is None or cal['id'] == fn['id']: continue
+            chk.analysed(fn)
+            k += 1; n += 1
+            bad = None
+            for i, (pc, pf, a) in enumerate(zip(cal.get('params') or [], fn.get('params') or [], c.get('args') or [])):
+                tc, tf = F.tname(cal, pc['t']), F.tname(fn, pf['t'])
+                if tc != tf or 'integral_constant' in tc or 'true_type' in tc or 'false_type' in tc: continue
+                s2 = A.strip(a, casts=True)
+                if not (s2 is not None and s2.get('k') == 'DeclRefExpr' and s2.get('id') == pf['id']):
+                    bad = (i, pf['n'], A.text(a)); break
+            site = U.site(fn, 'delegation#%d' % k)
+            if bad is None: chk.ok('R01.7', site, {'line': c.get('l')})
+            else: chk.fail('R01.7', site, fn['file'], c.get('l'), '%s falls back to its sibling overload with `%s` in the position of its parameter `%s`: the fallback formats a different value' % (
+                fn['n'], bad[2][:40], bad[1]), None, fn['q'])
+    chk.require(n >= 3, 'R01.7: only %d sibling delegations found in write_number.hpp' % n)
+
 def run(chk, tier, only_rule=None):
     chk.explanation = EXPLANATION
     chk.not_decided = NOT_DECIDED
@@ -216,5 +304,7 @@ def run(chk, tier, only_rule=None):
     chk.units = facts.units
     r01_1(chk, facts)
     r01_3(chk, facts, tier)
+    r01_7(chk, facts)
+    r01_8(chk, facts, tier)
     r01_6(chk, facts)
     c03.r03_1_2(chk, facts)
